@@ -12,6 +12,7 @@ import Dashu.Proofs.Text.BytesBE
 import Dashu.Proofs.Text.ChunksBuf
 import Dashu.Proofs.Text.ChunksTight
 import Dashu.Gen.TextChunks
+import Dashu.Proofs.Text.BytesSignedInv
 /-
   C07 — Integer text and byte encodings round-trip and match the reference digits.
 
@@ -428,6 +429,40 @@ theorem ibig_bytes_model (W : Nat) (h8 : 8 ∣ W) (hW : 8 ≤ W) (z : Int) (byte
   ⟨ibigToLeBytes_eq W h8 hW z, fromSignedLeBytes_eq W h8 hW bytes hb,
    (fromSigned_toSigned W h8 hW z).1, (fromSigned_toSigned W h8 hW z).2⟩
 
+/-- **length of the two's complement encoding** (round 7): `IBig::to_le_bytes` emits no byte for zero and otherwise
+    exactly `bit_len(|z|) / 8 + 1` bytes (`signedLen`); that is the minimal two's complement length `minSignedLen z`
+    for every integer except `z = -(2^(8q+7))` (`-128`, `-32768`, …), where the code's `leading_zeros % 8 == 0` test
+    appends a `0xff` byte to the already negative `0x00 … 0x80`: `q + 2` bytes instead of `q + 1` -/
+theorem signed_bytes_length (z : Int) (q n : Nat) :
+    (signedLeBytesSpec z).length = signedLen z ∧
+    ((∀ q : Nat, z ≠ -((2 : Int) ^ (8 * q + 7))) → signedLen z = minSignedLen z) ∧
+    signedLen (-((2 : Int) ^ (8 * q + 7))) = q + 2 ∧ minSignedLen (-((2 : Int) ^ (8 * q + 7))) = q + 1 ∧
+    -- what "minimal" means: `n` bytes can hold `z` in two's complement iff `minSignedLen z ≤ n`
+    (minSignedLen z ≤ n ↔ (z = 0 ∨ (1 ≤ n ∧ -((2 : Int) ^ (8 * n - 1)) ≤ z ∧ z < (2 : Int) ^ (8 * n - 1)))) :=
+  ⟨signedLeBytesSpec_length z, signedLen_eq_minSignedLen z, (signedLen_neg_pow q).1, (signedLen_neg_pow q).2,
+   minSignedLen_le_iff z n⟩
+
+/-- **the other direction of "mutually inverse" for the signed byte functions** (round 7; was a FRONTIER entry):
+    the decoder is injective on byte strings of one length, and encoding the decoded integer returns the byte
+    string **exactly when** the byte string has the encoder's length `signedLen` (bytes `< 256`) — at the level of the
+    specification, of the word-level little-endian functions and of the mirrored big-endian functions -/
+theorem signed_bytes_inverse_canonical (W : Nat) (h8 : 8 ∣ W) (hW : 8 ≤ W) (bs bs' : List Nat)
+    (hlt : ∀ b ∈ bs, b < 256) (hlt' : ∀ b ∈ bs', b < 256) :
+    (bs.length = bs'.length → ofSignedLeBytesSpec bs = ofSignedLeBytesSpec bs' → bs = bs') ∧
+    (signedLeBytesSpec (ofSignedLeBytesSpec bs) = bs ↔ bs.length = signedLen (ofSignedLeBytesSpec bs)) ∧
+    (bs.length = signedLen (ofSignedLeBytesSpec bs) →
+      ibigToLeBytes W (fromSignedLeBytes W bs) = bs ∧
+      ibigToBeBytesM W (fromSignedBeBytesM W bs.reverse) = bs.reverse) := by
+  refine ⟨fun hl h => ofSignedLeBytesSpec_inj bs bs' hl hlt hlt' h,
+    ⟨fun h => by rw [← signedLeBytesSpec_length, h], signedLeBytesSpec_ofSignedLeBytesSpec bs hlt⟩, fun hlen => ?_⟩
+  have h := signedLeBytesSpec_ofSignedLeBytesSpec bs hlt hlen
+  have hle : ibigToLeBytes W (fromSignedLeBytes W bs) = bs := by
+    rw [fromSignedLeBytes_eq W h8 hW bs hlt, ibigToLeBytes_eq W h8 hW, h]
+  refine ⟨hle, ?_⟩
+  rw [fromSignedBeBytesM_eq, ibigToBeBytesM_eq W h8 hW]
+  unfold fromSignedBeBytes ibigToBeBytes
+  rw [List.reverse_reverse, hle]
+
 /-- **the big-endian byte functions as the separate code they are** (`words_to_be_bytes`: top word's bytes after
     the skipped leading zero bytes, then the lower words in reverse order; `to_signed_be_bytes`: `insert(0, 0xff)`
     for `-(2^(8k))`, sign byte inserted at the front; `from_be_bytes_large`: `rchunks_exact(WORD_BYTES)` +
@@ -657,5 +692,11 @@ example := to_chunks_buffers_never_overrun 64 (2 ^ 192 - 1) 129 (by decide) (by 
 example := ubig_bytes_inverse_canonical 64 (by decide) (by decide) [0, 255, 0, 0, 0, 0, 0, 0, 0, 0, 0, 0, 0, 0, 0, 0, 0, 7] (by decide) (by decide)
 
 example := be_bytes_mirrored 64 (by decide) (by decide) (2 ^ 130 + 7) (-(2 ^ 128)) [255, 0, 0, 0, 0, 0, 0, 0, 0, 0, 0, 0, 0, 0, 0, 0, 0] (by decide)
+
+-- round 7: signed converse; `[0, 255]` = -256 and `[0, 128, 0]` = 32768 have the encoder's length, `[128]` = -128 has not
+example := (signed_bytes_inverse_canonical 64 (by decide) (by decide) [0, 255] [] (by decide) (by decide)).2.2 (by decide)
+example := (signed_bytes_inverse_canonical 64 (by decide) (by decide) [0, 128, 0] [] (by decide) (by decide)).2.1.mpr (by decide)
+example : signedLeBytesSpec (ofSignedLeBytesSpec [128]) = [128, 255] ∧ signedLen (-128) = 2 ∧ minSignedLen (-128) = 1 := by decide
+example := (signed_bytes_length 32768 3 3).2.1 (by intro q h; have : (0 : Int) < 2 ^ (8 * q + 7) := Int.pow_pos (by decide); omega)
 
 end Dashu.Props.C07
